@@ -47,6 +47,8 @@ def gen_cb(rng: Any, ids: list[int], depth: int, allow_service: bool, p_raise: f
     cb: dict[str, Any] = {"id": cid, "route": route, "kind": kind, "pass_exception": False, "steps": [], "raises": None, "children": [], "form": form}
     if route in ("direct", "resource") and rng.random() < 0.2:
         cb["from_child"] = True
+    elif route == "direct" and depth == 0 and rng.random() < 0.15:
+        cb["beside_failed_start"] = True
     if route == "shortcut" and rng.random() < 0.3:
         cb["from_component"] = True
     if route == "resource":
@@ -163,6 +165,7 @@ class Run:
         self.other_ctx_calls = 0
         self.generator_based_awaitables = 0
         self.from_component_registrations = 0
+        self.failed_service_starts = 0
         self.gen_shapes: dict[str, int] = {}
         self.setup_registrations = 0
         self.from_child_registrations = 0
@@ -386,6 +389,28 @@ class Run:
 
                 await start_component(Registering, timeout=None)
                 self.from_component_registrations += 1
+                return
+            if cb.get("beside_failed_start") and not during_teardown:
+                # registered by one task while, in a sibling task, a service task of the same context is starting up - and then fails
+                # to start: the failed start leaves nothing behind and takes nothing away
+                async def never_starts(*, task_status: Any) -> None:
+                    await checkpoint()
+                    raise RuntimeError("the service could not start")
+
+                async def starter() -> None:
+                    try:
+                        await self.ctx.start_service_task(never_starts, f"failing{cb['id']}")
+                    except BaseException as e:
+                        if is_cancellation(e):
+                            raise
+                        self.failed_service_starts += 1
+
+                async def sibling() -> None:
+                    self._register_simple(cb, route, during_teardown)
+
+                async with create_task_group() as stg:
+                    stg.start_soon(starter)
+                    stg.start_soon(sibling)
                 return
             self._register_simple(cb, route, during_teardown)
             return
@@ -807,6 +832,8 @@ def features(run: Run) -> dict[str, int]:
                 inc("callback_form_unhashable_object")
     if any(byid[cid]["route"] == "resource" and byid[cid].get("ntypes", 0) > 1 for cid in order):
         inc("resource_route_multi_type")
+    if run.failed_service_starts:
+        inc("callbacks_registered_while_a_service_task_of_the_context_failed_to_start", run.failed_service_starts)
     if run.from_component_registrations:
         inc("callbacks_registered_by_a_starting_component", run.from_component_registrations)
     if run.generator_based_awaitables:
